@@ -654,8 +654,8 @@ impl Primitive {
     /// Will error if the primitive is not a number.
     pub fn negate(&mut self) -> Result<()> {
         match self {
-            Primitive::BigInt(x) => *x = -*x,
-            Primitive::Int(x) => *x = -*x,
+            Primitive::BigInt(x) => *x = x.checked_neg().expect("integer overflow in unary `-`"),
+            Primitive::Int(x) => *x = x.checked_neg().expect("integer overflow in unary `-`"),
             Primitive::Float(x) => *x = -*x,
             ty => bail!("cannot negate {ty}"),
         }
